@@ -445,7 +445,12 @@ impl SchemaConverter {
       return Ok(vec![self.enum_converter.convert_value_enum(name, &resolved)]);
     }
 
-    Ok(vec![])
+    let type_ref = self.type_resolver.resolve_type(schema)?;
+    Ok(vec![RustType::TypeAlias(TypeAliasDef {
+      name: TypeAliasToken::from_raw(name),
+      docs: Documentation::from_optional(schema.description.as_ref()),
+      target: type_ref,
+    })])
   }
 
   /// Attempts to create a `Vec<T>` type reference for an array schema with inline items.
